@@ -124,6 +124,17 @@ func replay(path string) int {
 		return 2
 	}
 	fmt.Printf("# replay %s: recorded %s site=%s; run digest %s\n", path, rf.Oracle, rf.Site, rr.Digest)
+	if len(rr.Violations) == 0 && rf.Oracle == "C13/data-race" {
+		// same schedule, same results; only the race runtime's view of sync.Pool edges varies
+		wd, _ := os.MkdirTemp("", "verif-replay-")
+		defer os.RemoveAll(wd)
+		for i := 0; i < 4 && len(rr.Violations) == 0; i++ {
+			if r2, err := execPlanFresh(wd, rf.Plan, rf.Property); err == nil && r2.Digest == rr.Digest {
+				rr.Violations = r2.Violations
+				fmt.Printf("# race report reproduced on extra attempt %d (identical run digest)\n", i+1)
+			}
+		}
+	}
 	if len(rr.Violations) == 0 {
 		fmt.Println("# no violation on this tree")
 		return 0
